@@ -19,7 +19,7 @@ MANIFEST = {
     'technique': 'runtime monitoring: recording renderers (call log), substring-count oracle on unique tokens, write tracer + before/after fingerprints',
 }
 LEVEL = 'exploration'
-BUDGET = {'quick': 40, 'thorough': 360}
+BUDGET = {'quick': 60, 'thorough': 360}
 RULE = ('(database, renderer configuration in {default, recording subclasses, partial renderers via constructor, via parser '
         'arguments}, evaluation order); a case = one database under one configuration with all element renderings evaluated '
         '3x in shuffled order; distinct by dbml hash + configuration; non-trivial = database has >= 2 element kinds')
